@@ -17,6 +17,21 @@ type SubscriptionService struct {
 	// pub sub stuff
 	Mu   sync.Mutex
 	Subs map[uint32]*Subscription
+
+	// id of the most recently created subscription
+	lastSubID uint32
+}
+
+// nextSubID returns the id for a new subscription. Ids are handed out in
+// increasing order so that the id of a deleted subscription is not given to
+// another one while clients may still refer to it. Zero is not a valid id.
+// The caller must hold s.Mu.
+func (s *SubscriptionService) nextSubID() uint32 {
+	s.lastSubID++
+	if s.lastSubID == 0 {
+		s.lastSubID++
+	}
+	return s.lastSubID
 }
 
 // get rid of all references to a subscription and all monitored items that are pointed at this subscription.
@@ -55,7 +70,7 @@ func (s *SubscriptionService) CreateSubscription(sc *uasc.SecureChannel, r ua.Re
 	s.Mu.Lock()
 	defer s.Mu.Unlock()
 
-	newsubid := uint32(len(s.Subs)) + 1
+	newsubid := s.nextSubID()
 
 	if s.srv.cfg.logger != nil {
 		s.srv.cfg.logger.Info("New Sub %d for %v", newsubid, sc.RemoteAddr())
